@@ -10,7 +10,7 @@
   Core Lean only.
 -/
 import NngModel.Base.Bytes
-import NngModel.Generated.Consts
+import NngModel.Generated.C19
 namespace Nng.UrlSpec
 open Nng
 
